@@ -139,6 +139,38 @@ class Server:
             pass
         return out
 
+    def wait_events(self, pred, timeout=10.0):
+        """Follows the event log incrementally until pred(list of new+old matching events) is true; returns False on timeout.
+        pred receives every event seen so far by this follower (kept in self._seen)."""
+        if not hasattr(self, "_seen"):
+            self._seen = []
+            self._off = 0
+            self._part = b""
+        end = time.time() + timeout
+        while True:
+            try:
+                with open(self.logfile, "rb") as f:
+                    f.seek(self._off)
+                    data = f.read()
+                    self._off += len(data)
+            except OSError:
+                data = b""
+            data = self._part + data
+            lines = data.split(b"\n")
+            self._part = lines.pop()
+            for line in lines:
+                try:
+                    self._seen.append(json.loads(line))
+                except ValueError:
+                    pass
+            if len(self._seen) > 4000:
+                del self._seen[:2000]
+            if pred(self._seen):
+                return True
+            if time.time() > end:
+                return False
+            time.sleep(0.002)
+
     def stop(self):
         if self.alive():
             try:
